@@ -186,6 +186,14 @@ def shard_enum_item(args):
             body.append(B.mk_item(i, slug=f'slug {sid}/{i}'))
         if playout in ('trailing-p', 'mixed'):
             body.append(B.P('trailing'))
+        if playout == 'twin-items' and its:
+            # ahead of the real items: items whose IDs only look like the last item's ID, and a
+            # <storyItem> / foreign-namespace <item> carrying that very ID
+            last = its[-1]
+            ns_ = '{urn:other-vendor}'
+            body[0:0] = [B.mk_item(gen._twin(last, 1), slug='zero-width space'), B.mk_item(gen._twin(last, 3), slug='bom'),
+                         B.E('storyItem', B.T('itemID', last), B.T('itemSlug', 'not an item')),
+                         B.E(ns_ + 'item', B.E(ns_ + 'itemID', text=last))]
         if playout == 'anon-item':
             # an item whose itemID tag is empty, second in line: no reference can name it
             anon = B.mk_item('x', slug='anonymous')
